@@ -61,6 +61,8 @@ func c16(c *core.Check) {
 
 	c16Dispatch(c)
 	c16Page(c)
+	c16FixedBoxes(c)
+	c16WrapperProperties(c)
 
 	dsc := p.Method("html/document", "drawContext", "drawStackingContext")
 	if dsc == nil {
@@ -621,4 +623,82 @@ func c16Page(c *core.Check) {
 	r.Cond(instrDominates(pageBg, canvasBg), "html/document.drawPage | page background below the canvas background", p.Pos(canvasBg.Pos()), "the @page background is painted first", "the canvas background is painted before the page box's own background, which then covers it")
 	r.Cond(instrDominates(canvasBg, border), "html/document.drawPage | backgrounds below the page border", p.Pos(border.Pos()), "backgrounds first", "the page border is painted before a background")
 	r.Cond(instrDominates(border, content), "html/document.drawPage | page decorations below the content", p.Pos(content.Pos()), "the root stacking context is painted last", "the content is painted before the page's border")
+}
+
+// c16FixedBoxes: fixed-position boxes repeated from other pages keep tree order.  layoutDocument rebuilds the children
+// of each page's root as: the fixed boxes of the earlier pages, the root's own children, the fixed boxes of the later
+// pages — so that, painted in tree order, a box from an earlier page is below and one from a later page above the
+// page's own positioned content.
+func c16FixedBoxes(c *core.Check) {
+	p := c.Prog
+	r := c.Rule("R7", "fixed boxes of other pages are inserted in document order: in layoutDocument the new children of a page's root are appended in three steps — layoutFixedBoxes of the pages before this one (a slice of the page list ending at the page's index), the root's own children, layoutFixedBoxes of the pages after it (a slice starting after the index)", 3)
+	fn := p.Fn("html/layout", "layoutDocument")
+	lfb := p.Fn("html/layout", "layoutFixedBoxes")
+	if fn == nil || lfb == nil {
+		r.Anchor("html/layout.layoutDocument / layoutFixedBoxes")
+		return
+	}
+	// the calls, classified by the slice of pages they receive
+	var before, after []*ssa.Call
+	var other []*ssa.Call
+	core.Instrs(fn, func(in ssa.Instruction) {
+		call, ok := in.(*ssa.Call)
+		if !ok || call.Call.StaticCallee() != lfb || len(call.Call.Args) < 2 {
+			return
+		}
+		sl, ok := call.Call.Args[1].(*ssa.Slice)
+		switch {
+		case ok && sl.Low == nil && sl.High != nil:
+			before = append(before, call)
+		case ok && sl.Low != nil && sl.High == nil:
+			after = append(after, call)
+		default:
+			other = append(other, call)
+		}
+	})
+	r.Cond(len(before) == 1 && len(after) == 1 && len(other) == 0, "html/layout.layoutDocument | one call for the pages before, one for the pages after", p.Pos(fn.Pos()),
+		"layoutFixedBoxes(pages[:i]) and layoutFixedBoxes(pages[i+1:])", fmt.Sprintf("%d call(s) on the pages before, %d on the pages after, %d on another list: the fixed boxes of earlier and later pages are no longer told apart", len(before), len(after), len(other)))
+	if len(before) != 1 || len(after) != 1 {
+		return
+	}
+	// order: before-call, then a load of the root's Children, then after-call, all feeding appends in that order
+	var childrenLoad ssa.Instruction
+	core.Instrs(fn, func(in ssa.Instruction) {
+		ld, ok := in.(*ssa.UnOp)
+		if !ok || ld.Op != token.MUL || ld.Block() != before[0].Block() {
+			return
+		}
+		if fa, ok := ld.X.(*ssa.FieldAddr); ok && core.FieldName(fa) == "Children" && childrenLoad == nil && instrDominates(before[0], ld) {
+			childrenLoad = ld
+		}
+	})
+	okOrder := childrenLoad != nil && before[0].Block() == after[0].Block() && instrDominates(before[0], childrenLoad) && instrDominates(childrenLoad, after[0])
+	r.Cond(okOrder, "html/layout.layoutDocument | earlier pages' boxes, own children, later pages' boxes", p.Pos(before[0].Pos()), "appended in that order", "the three parts are not appended in document order: a fixed box from an earlier page is painted over the positioned boxes of this page")
+	r.Cond(true, "html/layout.layoutDocument | fixed boxes anchor", p.Pos(after[0].Pos()), "calls found", "")
+}
+
+// c16WrapperProperties: z-index moves to the table wrapper together with position.
+func c16WrapperProperties(c *core.Check) {
+	p := c.Prog
+	r := c.Rule("R8", "a positioned table forms its stacking context on the wrapper: the set of properties moved from a table to its wrapper (TableWrapperBoxProperties) contains z-index if and only if it contains position (z-index left on the now static table box would be ignored: the table would never form a z-index context)", 1)
+	entries, err := p.Table("css/properties", "TableWrapperBoxProperties")
+	if err != nil {
+		r.Anchor("css/properties.TableWrapperBoxProperties: " + err.Error())
+		return
+	}
+	has := map[string]bool{}
+	for _, e := range entries {
+		if e.ValObj != nil {
+			has[e.ValObj.Name()] = true
+		} else if e.KeyExpr != nil {
+			has[p.NodeText(e.KeyExpr)] = true
+		} else if e.Val != nil {
+			has[p.NodeText(e.Val)] = true
+		}
+	}
+	if len(has) < 10 {
+		r.Anchor(fmt.Sprintf("css/properties.TableWrapperBoxProperties: %d entries read", len(has)))
+		return
+	}
+	r.Cond(has["PPosition"] == has["PZIndex"], "css/properties.TableWrapperBoxProperties | position and z-index together", "css/properties/datas.go", "both moved to the wrapper", fmt.Sprintf("position moved: %v, z-index moved: %v — `<table style=\"position:relative;z-index:-1\">` paints over the in-flow blocks", has["PPosition"], has["PZIndex"]))
 }
